@@ -161,6 +161,19 @@ def check(run, ctx):
     used = [n for f2 in repo.funcs_in(f"{PKG}.pattern_matcher.") for n in ast.walk(f2.node) if isinstance(n, ast.Call) and call_name(n) in ("search", "match", "fullmatch")]
     (run.ok(V5, "match method", "search") if used and all(call_name(n) == "search" for n in used) else run.finding(V5, "PatternMatcher", f"method:{sorted({call_name(n) for n in used})}", "patterns are not applied with re.search", f"{PKG}"))
 
+    pmc = repo.cls(f"{PKG}.pattern_matcher.PatternMatcher")
+    gc_ = pmc.methods["_get_compiled"]
+    comp = next(n for n in ast.walk(gc_.node) if isinstance(n, ast.Call) and dotted(n.func) == "re.compile")
+    unit = isinstance(comp.args[0], ast.Name) and comp.args[0].id == gc_.node.args.args[1].arg
+    ma = pmc.methods["match_allow_patterns"]
+    ret = next((n.value for n in ast.walk(ma.node) if isinstance(n, ast.Return)), None)
+    per_pattern = isinstance(ret, ast.Call) and call_name(ret) == "any" and ret.args and isinstance(ret.args[0], ast.GeneratorExp) and ast.unparse(ret.args[0].generators[0].iter) == ma.node.args.args[2].arg and not ret.args[0].generators[0].ifs
+    combined = [n for m_ in pmc.methods.values() for n in ast.walk(m_.node) if isinstance(n, ast.Call) and call_name(n) == "join" and isinstance(n.func.value, ast.Constant) and "|" in str(n.func.value.value)]
+    if unit and per_pattern and not combined:
+        run.ok(V5, "allow matching", "any(search(p) for p in allow_patterns): each validated pattern is matched on its own; an empty allow list allows nothing")
+    else:
+        run.finding(V5, "PatternMatcher.match_allow_patterns", "combined-pattern", "allow patterns are no longer matched one by one with any(...): a combined alternation changes the meaning of an empty allow list (matches everything) and of back-references, and is not what PatternValidator validated", ma.loc)
+
     V6 = run.rule("V6", "lint_path judges PathResolver.get_relative_path(file); get_relative_path makes relative spellings project-relative too", floor=2,
                   decides="the verdict depends only on the file's path relative to the project root")
     lp = repo.func(f"{PKG}.linter.FilePlacementLinter.lint_path")
@@ -173,6 +186,11 @@ def check(run, ctx):
         run.ok(V6, "get_relative_path", "relative inputs are made absolute before relative_to(project_root)")
     else:
         run.finding(V6, "PathResolver.get_relative_path", "relative-path-as-is", "a relative path is returned unchanged (relative to the working directory, not the project root): the same file gets a different verdict when the command is run from a sub-directory", gr.loc)
+    follows = [n for n in ast.walk(gr.node) if isinstance(n, ast.Call) and call_name(n) in ("resolve", "realpath") and "file_path" in ast.unparse(n)]
+    if follows:
+        run.finding(V6, "PathResolver.get_relative_path", "follows-symlinks", f"`{norm(follows[0])}` follows symbolic links: a symlinked file is judged by where its target lives, not by its own path relative to the project root", gr.loc)
+    else:
+        run.ok(V6, "get_relative_path symlinks", "the file path is not resolved through symlinks")
     branches = [n for n in ast.walk(gr.node) if isinstance(n, ast.Return) and n.value is not None and any(is_call_named(x, "relative_to") for x in ast.walk(n.value))]
     sym_follow = [any(is_call_named(x, "resolve", "realpath") for x in ast.walk(b.value)) for b in branches]
     if branches and len(set(sym_follow)) > 1:
